@@ -740,7 +740,7 @@ pub fn check_c15(tier: Tier) -> i32 {
     let progs = program_list(&gr);
     let p = tier.pick(2, 2);
     run.rule = format!(
-        "ALL function bodies of the statement grammar with <= {} nodes / nesting <= 2 ({} programs covering every instruction kind incl. else, inner end and the final end) x ALL plans of <= {} injections over (instruction, mode) with mode in {{before, after, alternate, empty alternate}} (two injections on the same site and mode included, an alternate followed by a removal included; every plan also with one of its injections retracted again through clear_instr_at; thorough adds all plans of 3 injections on the programs with <= 2 nodes) x 9 API paths (module iterator, function modifier, component iterator; each through mode()+inject, inject_at and *_at+add_instr_at; quick rotates the path over the plans, thorough runs every path on every plan). Oracle: the decoded instruction list of the function equals, instruction by instruction, before ++ (alternate | instruction) ++ after, with only before-code at the final end; the other function is unchanged. Non-trivial class = (multiset of (mode, instruction role), API path).",
+        "ALL function bodies of the statement grammar with <= {} nodes / nesting <= 2 ({} programs covering every instruction kind incl. else, inner end and the final end) x ALL plans of <= {} injections over (instruction, mode) with mode in {{before, after, alternate, empty alternate}} (two injections on the same site and mode included, an alternate followed by a removal included; every plan also with one of its injections retracted again through clear_instr_at; thorough adds all plans of 3 injections on the programs with <= 2 nodes) x 9 API paths (module iterator, function modifier, component iterator; each through mode()+inject, inject_at and *_at+add_instr_at; quick rotates the path over the plans, thorough runs every path on every plan without a retraction). Oracle: the decoded instruction list of the function equals, instruction by instruction, before ++ (alternate | instruction) ++ after, with only before-code at the final end; the other function is unchanged. Non-trivial class = (multiset of (mode, instruction role), API path).",
         gr.max_nodes,
         progs.len(),
         p
@@ -762,9 +762,11 @@ pub fn check_c15(tier: Tier) -> i32 {
                 }
             }
         }
+        let n_plain = plans.len();
         plans.extend(retracted);
         for (k, plan) in plans.into_iter().enumerate() {
-            if tier == Tier::Thorough {
+            // thorough: every path on every plain plan; the retracted variants rotate the path
+            if tier == Tier::Thorough && k < n_plain {
                 for api in ALL_APIS {
                     cases.push(Case { program: prog.clone(), plan: plan.clone(), api });
                 }
